@@ -372,6 +372,19 @@ def r14_6(ctx):
     ctx.ob('R14.6', '_malloc:new-arena-is-one-free-extent', ok, fi, rets[0] if rets else None, 'return (arena, 0, length)')
     ap = q.nodes_calling(fi, 'self._arenas.append')
     ctx.ob('R14.6', '_malloc:arena-kept-alive', bool(ap), fi, None, 'self._arenas.append(arena)')
+    # the position found by the search stays valid until it is used: nothing that changes the free lists (a drain of
+    # the pending frees, a free) runs between the search and the use of its result
+    if bis:
+        after = cfg.reach([bis[0][0].id], skip_labels=('x',))
+        muts = [(n, c) for (n, c) in q.calls(fi, lambda t: t.startswith('self.') and t.split('.')[1] in PRIVATE)
+                if n.id in after and fi.callee(c) != 'self._delete']
+        uses = [n for n in reuse] + [n for (n, c) in arenas]
+        stale = [(n, c) for (n, c) in muts if any(u.id in cfg.reach([n.id], skip_labels=('x',)) for u in uses)]
+        ctx.ob('R14.6', '_malloc:search-result-not-invalidated', not stale, fi, stale[0][1] if stale else bis[0][0],
+               'no free-list mutation between the search and the use of its index' if not stale else
+               '`%s` changes the free lists after `%s` was computed and before it is used: the index points at another '
+               '(possibly too small) extent and the block handed out overlaps its neighbour'
+               % (ast.unparse(stale[0][1]), ivar))
 
 
 def run(ctx):
@@ -392,6 +405,8 @@ def run(ctx):
 
 _H = 'billiard/heap.py'
 MUTANTS = [
+    ('pending-frees-drained-after-the-search', _H, "        i = bisect.bisect_left(self._lengths, size)\n        if i == len(self._lengths):\n",
+     "        i = bisect.bisect_left(self._lengths, size)\n        if i == len(self._lengths) and self._pending_free_blocks:\n            self._free_pending_blocks()\n        if i == len(self._lengths):\n", 'R14.6'),
     ('free-list-index-shared-by-all-heaps', _H, "    _alignment = 8\n\n    def __init__(self, size=mmap.PAGESIZE):\n        self._lastpid = os.getpid()\n        self._lock = threading.Lock()\n        self._size = size\n        self._lengths = []\n        self._len_to_seq = {}\n",
      "    _alignment = 8\n    _len_to_seq = {}\n\n    def __init__(self, size=mmap.PAGESIZE):\n        self._lastpid = os.getpid()\n        self._lock = threading.Lock()\n        self._size = size\n        self._lengths = []\n", ('R14.7', 'R15.5')),
     ('child-keeps-the-inherited-free-lists', _H, "            self.__init__()                     # reinitialize after fork\n",
